@@ -670,3 +670,63 @@ class C13(Base):
 
     def native_args(self, tier, seed):
         return ["native", "c13", "200000" if tier == "quick" else "5000000", str(seed)] + (["full"] if tier == "thorough" else [])
+
+
+def float_args(name):
+    def f(self, tier, seed):
+        return ["native", name, "20000" if tier == "quick" else "2000000", str(seed)]
+    return f
+
+
+FLOAT_NOTE = (" Clauses that need the real sin/cos/acos/atan2 are additionally evaluated on the f64 instantiation of the "
+              "implementation with explicit margins on well-conditioned inputs (oracle evaluation, not proof).")
+
+
+@prop("C11")
+class C11(Base):
+    title = "magnitude, distance, normalisation, angle and projection are consistent"
+    design_ref = "§6 C11"
+    _m = ["magnitude2", "magnitude", "distance2", "distance", "normalize", "normalize_to", "angle", "project_on",
+          "dot", "is_perpendicular"]
+    ops = ["v{}.{}".format(n, o) for n in (1, 2, 3, 4) for o in
+           ("magnitude2", "magnitude", "distance2", "distance", "normalize", "normalize_to", "angle", "project_on",
+            "dot", "is_perpendicular")] + \
+          ["p{}.{}".format(n, o) for n in (1, 2, 3) for o in ("distance2", "distance")] + \
+          ["q.magnitude2", "q.magnitude", "q.distance2", "q.distance", "q.normalize", "q.normalize_to", "q.angle",
+           "q.project_on", "q.dot", "v2.perp_dot", "v3.cross"]
+    oracle_ops = ["o.v1.metric", "o.v2.metric", "o.v3.metric", "o.v4.metric", "o.q.metric"]
+    native_args = float_args("c11")
+
+    def families(self, rng, tier):
+        out = []
+        reps = 6 if tier == "quick" else 200
+        for _ in range(reps):
+            for n in (1, 2, 3, 4):
+                u, v = pyth_vectors(rng, n), pyth_vectors(rng, n)
+                for op in ("magnitude", "normalize"):
+                    out.append(Case(f"v{n}.{op}", u, family="exact-sqrt"))
+                out.append(Case(f"v{n}.normalize_to", u + [rng.rat_nz()], family="exact-sqrt"))
+                out.append(Case(f"v{n}.angle", u + v, family="exact-sqrt"))
+                out.append(Case(f"v{n}.distance", u + [F(0)] * n, family="exact-sqrt"))
+                out.append(Case(f"v{n}.project_on", rng.distinct(n) + v, family="oblique"))
+            q = pyth_vectors(rng, 4)
+            out.append(Case("q.magnitude", q, family="exact-sqrt"))
+            out.append(Case("q.normalize", q, family="exact-sqrt"))
+            out.append(Case("q.angle", q + pyth_vectors(rng, 4), family="exact-sqrt"))
+            # clockwise and counter-clockwise 2-D pairs
+            a = rng.distinct(2)
+            out.append(Case("v2.angle", a + [-a[1], a[0]], family="ccw"))
+            out.append(Case("v2.angle", a + [a[1], -a[0]], family="cw"))
+        return out
+
+    def oracle_cases(self, rng, tier):
+        out = []
+        k = 30 if tier == "quick" else 1500
+        for _ in range(k):
+            for n in (1, 2, 3, 4):
+                out.append(Case(f"o.v{n}.metric", pyth_vectors(rng, n) + (pyth_vectors(rng, n) if rng.below(2) else rng.distinct(n)) + [rng.rat_nz()], family="oracle"))
+            out.append(Case("o.q.metric", pyth_vectors(rng, 4) + rng.distinct(4) + [rng.rat_nz()], family="oracle"))
+        return out
+
+
+C11.level_note = Base.level_note + FLOAT_NOTE
